@@ -28,7 +28,8 @@ AllDeviations == {"CloseDoesNotReanalyse", "RenameTaintsCache", "StaleDiagnostic
                   "PrepareRenameSlicesPastEol", "SourceLinePastEof", "CompletionSplitsInsideChar",
                   "DidChangeFirstEntryWins", "NonFileUriPanics",
                   "MalformedParamsPanic", "UnknownRequestNeverAnswered", "NonUtf8PathPanics",
-                  "WorkspaceSymbolRecursesImports", "SemanticTokenPastEndOfLine", "CodeLensOfImportedTests"}
+                  "WorkspaceSymbolRecursesImports", "SemanticTokenPastEndOfLine", "CodeLensOfImportedTests",
+                  "PrepareRenameWordStartInsideChar"}
 
 (* what the server would read for every file: the open buffer, else the disk *)
 Eff(disk, buf) == [f \in DOMAIN disk |-> IF buf[f] # NoText THEN buf[f] ELSE disk[f]]
@@ -103,6 +104,7 @@ Range(seq) == {seq[i] : i \in 1..Len(seq)}
 PastEof(lt, line) == line >= Len(lt)
 ByteOob(lt, line, col) == ~PastEof(lt, line) /\ col > lt[line + 1].bytes
 InsideChar(lt, line, col) == ~PastEof(lt, line) /\ col \in Range(lt[line + 1].nb)
+WordStartAfterMbDelim(lt, line, col) == ~PastEof(lt, line) /\ "wsmb" \in DOMAIN lt[line + 1] /\ col \in Range(lt[line + 1].wsmb)
 
 (* The code today uses (line, character) as indices into the analysed text: which defect a request trips, "" if none. *)
 (* (rename.rs:32-52 slices line[..col] and line[col..]; completion.rs:38-42 split_at(col-1); both call                 *)
@@ -115,6 +117,11 @@ DeathOf(kind, lt, line, col, devs) ==
     THEN "PrepareRenameSlicesPastEol"
   ELSE IF "CompletionSplitsInsideChar" \in devs /\ kind = "completion" /\ col > 0 /\ ~ByteOob(lt, line, col) /\ InsideChar(lt, line, col - 1)
     THEN "CompletionSplitsInsideChar"
+  (* rename.rs looks for the start of the word under the cursor as (byte index of the nearest non-identifier character) + 1: *)
+  (* when that delimiter is a multi-byte character (an arrow, an ellipsis, a dash, an emoji) the slice starts inside it.      *)
+  (* wsmb = the character columns of the line whose word start is computed that way.                                          *)
+  ELSE IF "PrepareRenameWordStartInsideChar" \in devs /\ kind = "prepareRename" /\ WordStartAfterMbDelim(lt, line, col)
+    THEN "PrepareRenameWordStartInsideChar"
   ELSE ""
 
 (* a returned range <<sl, sc, el, ec>> lies inside the document with line table lt (LSP: UTF-16 code units) *)
